@@ -21,7 +21,7 @@ impl Check for C01 {
         "case = random EBNF grammar (<=6 non-terminals, <=8 whitespace-separable terminals, groups/optionals/repetitions nested <=2) x lookahead limit K in {1,2,3,5,10} x 12 inputs (sentences by random derivation, 1-2 token mutations of sentences incl. foreign tokens, random strings), each decorated with whitespace/newlines/comments and parsed with recovery on and off by the real runtime over tables loaded from parol's generated source; oracle = fixpoint chart recogniser over the generator's EBNF AST applied to the token sequence the real scanner produced. Evaluations = parser runs. Non-trivial = (grammar, input) pair where the grammar was accepted as LL(k), has >=2 non-terminals or >=1 EBNF construct or needed k>=2, and the input has >=2 tokens; distinct by hash of (grammar text, input text)".into()
     }
     fn strategy(&self, tier: Tier) -> BoxedStrategy<ParseCase> {
-        parse_case_strategy(tier_params(tier, GenParams::ll()), false, 12)
+        parse_case_strategy_la(tier_params(tier, GenParams::ll()), false, 12)
     }
     fn cases(&self, tier: Tier) -> u32 {
         tier.pick(8000, 200000)
